@@ -39,7 +39,13 @@ pub fn pool_case(data: &[u8]) -> Option<PoolCase> {
             8 => Op::HsOk(idx, arg & 1 != 0),
             9 => Op::HsFail(idx),
             10 => Op::Release(idx),
-            11 => Op::ConnReady(idx),
+            11 => {
+                if arg & 3 == 3 {
+                    Op::ConnNudge(idx)
+                } else {
+                    Op::ConnReady(idx)
+                }
+            }
             12 => Op::ConnClose(idx),
             13 => Op::Bg,
             14 => Op::Warm { origin: arg % 6, h2: arg & 0x80 != 0 },
